@@ -458,6 +458,183 @@ def split_group(ip, grp, pred):
     return (m_val, r_val)
 
 
+# ---- the exit / enter / cancel contracts in a form usable at call sites (TaskGroup, fail_at, ...) ------------------
+# The formulas are shared: ExitUnit / EnterUnit / CancelUnit discharge them against the real bodies, callers assume them.
+
+
+def exit_legit(h, s, cur):
+    return z3.And(active(h, s), host(h, s) == cur, tstate_of(h, cur) != 0, h.f("TaskState", "cancel_scope", tstate_of(h, cur)) == s)
+
+
+def exit_own(h, s):
+    """this scope was cancelled and no cancelled enclosing scope is visible to it"""
+    return z3.And(cc(h, s), z3.Not(visible(h, s)))
+
+
+def exc_shape(e):
+    """(only AnyIO cancellations arrive, an AnyIO cancellation arrives, something else arrives too) for the exception
+    object passed to __exit__"""
+    F, T = z3.BoolVal(False), z3.BoolVal(True)
+    if e is None:
+        return F, F, F
+    if isinstance(e, GroupExc):
+        rest = z3.Or(e.has["native"], e.has["other"])
+        return z3.And(e.has["tagged"], z3.Not(rest)), e.has["tagged"], rest
+    if e.pycls is not None and e.pycls.__name__ == "CancelledError":
+        tag = e.tag if e.tag is not None else F
+        return tag, tag, z3.Not(tag)
+    if e.pycls is None and e.kind is not None:
+        is_c = e.kind == 0
+        tag = e.tag if e.tag is not None else F
+        return z3.And(is_c, tag), z3.And(is_c, tag), z3.Not(z3.And(is_c, tag))
+    return F, F, T
+
+
+def exit_bookkeeping(pre, post, s, cur):
+    par = parent(pre, s)
+    return z3.And(
+        z3.Not(active(post, s)),
+        host(post, s) == 0,
+        thandle(post, s) == 0,
+        z3.Implies(thandle(pre, s) != 0, hcancelled(post, thandle(pre, s))),
+        z3.Not(members(post, s).has(cur)),
+        post.f("TaskState", "cancel_scope", tstate_of(pre, cur)) == par,
+        z3.Implies(par != 0, z3.And(z3.Not(children(post, par).has(s)), members(post, par).has(cur))),
+        parent(post, s) == par,
+        cc(post, s) == cc(pre, s),
+        shield(post, s) == shield(pre, s),
+        deadline_(post, s) == deadline_(pre, s),
+    )
+
+
+SCOPE_STATE_FRAME = {(C, n) for n in ("_active", "_host_task", "_timeout_handle", "_cancelled_caught", "_pending_uncancellations", "_parent_scope", "_cancel_called", "_cancel_reason", "_cancel_handle")} | {(CHILDREN.cls, "mem"), (CHILDREN.cls, "card"), (MEMBERS.cls, "mem"), (MEMBERS.cls, "card"), ("TaskState", "cancel_scope"), ("TaskState", "parent_id"), ("TaskStates", "map"), ("Task", "nuncancel"), ("Handle", "cancelled"), ("Handle", "when"), ("Handle", "cb"), ("Task", "cancelling"), ("Task", "must_cancel"), ("Task", "ncancel"), ("Future", "state")}
+
+
+def others_untouched(pre, post, s, extra=()):
+    """frame of enter / exit / cancel of scope s w.r.t. *other* scopes: flags, links and activity of every other scope
+    are unchanged; only the parent's member / child sets change"""
+    x = z3.Int(pre.st.uniq("x"))
+    keep = ["_active", "_host_task", "_parent_scope", "_cancel_called", "_shield", "_deadline", "_cancelled_caught", "_tasks", "_child_scopes"]
+    return z3.ForAll([x], z3.Implies(z3.And(x != s, *[x != e for e in extra]), z3.And(*[pre.f(C, n, x) == post.f(C, n, x) for n in keep])), patterns=[post.f(C, "_active", x), post.f(C, "_cancel_called", x), post.f(C, "_parent_scope", x), post.f(C, "_host_task", x)])
+
+
+class ScopeCall:
+    """call-site form of a CancelScope method contract (custom shapes: the outcome depends on the exception object)"""
+
+    def __init__(self, qualname, fn):
+        self.qualname, self.fn = qualname, fn
+        self.suspends = False
+
+    def apply(self, ip, f, args, kwargs):
+        return self.fn(ip, args, kwargs)
+
+
+def _havoc_scope_frame(ip):
+    st = ip.st
+    st.havoc(keys=SCOPE_STATE_FRAME)
+    if st.writes is not None:
+        for ws in st.writes:
+            ws.update(SCOPE_STATE_FRAME)
+
+
+def call_exit(ip, args, kwargs):
+    st, ctx = ip.st, ip.ctx
+    s, e = args[0].t, args[2]
+    cur = ctx.cur.t
+    pre = H(st, st.snapshot())
+    for t in (s, parent(pre, s), z3.IntVal(0)):
+        st.assume(eff_unfold(pre, t))
+    legit = exit_legit(pre, s, cur)
+    anyio_only, has_anyio, has_rest = exc_shape(e)
+    own = exit_own(pre, s)
+    mixed = z3.And(own, has_anyio, has_rest, z3.BoolVal(isinstance(e, GroupExc)))
+    k = ctx.decide(3 if isinstance(e, GroupExc) else 2, "scope-exit")
+    if k == 0:
+        if not st.feasible(z3.Not(legit)):
+            raise lib.PathEnd("exit is legitimate")
+        st.assume(z3.Not(legit))
+        lib.raise_("RuntimeError", "This cancel scope is not active / not the current scope")
+    st.assume(legit)
+    if k == 1:
+        st.assume(z3.Not(mixed))
+    else:
+        st.assume(mixed)
+    _havoc_scope_frame(ip)
+    post = H(st)
+    st.assume(exit_bookkeeping(pre, post, s, cur))
+    st.assume(others_untouched(pre, post, s, extra=()))
+    st.assume(z3.And(shield(post, s) == shield(pre, s), deadline_(post, s) == deadline_(pre, s), pre.f("TaskStates", "map", TS_SINGLETON) == post.f("TaskStates", "map", TS_SINGLETON)))
+    st.assume(caught(post, s) == z3.Or(caught(pre, s), z3.And(own, has_anyio)))
+    if k == 2:
+        rest = GroupExc(z3.BoolVal(False), e.has["native"], e.has["other"])
+        rest.leaves = getattr(e, "leaves", None)
+        raise PyExc(rest)
+    ret = Sym(st.fresh("swallow", z3.BoolSort()), BOOL)
+    st.assume(ret.t == z3.And(own, anyio_only))
+    return ret
+
+
+def enter_post(pre, post, s, cur):
+    prev = z3.If(tstate_of(pre, cur) == 0, 0, pre.f("TaskState", "cancel_scope", tstate_of(pre, cur)))
+    return z3.And(
+        active(post, s),
+        host(post, s) == cur,
+        members(post, s).has(cur),
+        tstate_of(post, cur) != 0,
+        post.f("TaskState", "cancel_scope", tstate_of(post, cur)) == s,
+        parent(post, s) == prev,
+        z3.Implies(prev != 0, children(post, prev).has(s)),
+        shield(post, s) == shield(pre, s),
+        deadline_(post, s) == deadline_(pre, s),
+        z3.Implies(cc(pre, s), cc(post, s)),
+    )
+
+
+def call_enter(ip, args, kwargs):
+    st, ctx = ip.st, ip.ctx
+    s = args[0].t
+    cur = ctx.cur.t
+    pre = H(st, st.snapshot())
+    if ctx.decide(2, "scope-enter") == 1:
+        if not st.feasible(active(pre, s)):
+            raise lib.PathEnd("scope not active")
+        st.assume(active(pre, s))
+        lib.raise_("RuntimeError", "Each CancelScope may only be used for a single 'with' block")
+    st.assume(z3.Not(active(pre, s)))
+    _havoc_scope_frame(ip)
+    post = H(st)
+    st.assume(enter_post(pre, post, s, cur))
+    st.assume(others_untouched(pre, post, s))
+    return args[0]
+
+
+def call_cancel(ip, args, kwargs):
+    st = ip.st
+    s = args[0].t
+    pre = H(st, st.snapshot())
+    frame = {(C, "_cancel_called"), (C, "_cancel_reason"), (C, "_timeout_handle")} | DELIVERY_FRAME
+    st.havoc(keys=frame)
+    if st.writes is not None:
+        for ws in st.writes:
+            ws.update(frame)
+    post = H(st)
+    x = z3.Int(st.uniq("x"))
+    st.assume(cc(post, s))
+    st.assume(z3.ForAll([x], z3.Implies(x != s, z3.And(cc(post, x) == cc(pre, x), thandle(post, x) == thandle(pre, x))), patterns=[cc(post, x), thandle(post, x)]))
+    st.assume(z3.Implies(cc(pre, s), thandle(post, s) == thandle(pre, s)))
+    st.assume(z3.Implies(z3.Not(cc(pre, s)), thandle(post, s) == 0))
+    for n, t in delivery_post(pre, post, None, None):
+        st.assume(t)
+    return None
+
+
+SCOPE_CALLS = {
+    "CancelScope.__enter__": ScopeCall("CancelScope.__enter__", call_enter),
+    "CancelScope.__exit__": ScopeCall("CancelScope.__exit__", call_exit),
+    "CancelScope.cancel": ScopeCall("CancelScope.cancel", call_cancel),
+}
+
+
 # ---- units ---------------------------------------------------------------------------------------------------------
 
 
@@ -560,33 +737,17 @@ class ExitUnit(ScopeUnit):
         s, cur = a.self, a.cur
         post = H(ip.st)
         nm = "CancelScope.__exit__"
-        legit = z3.And(active(pre, s), host(pre, s) == cur, tstate_of(pre, cur) != 0, pre.f("TaskState", "cancel_scope", tstate_of(pre, cur)) == s)
+        legit = exit_legit(pre, s, cur)
         e = self.exc
         if exc is not None and exc.pycls is RuntimeError:
             ip.ctx.oblige(f"{nm}/post:refused.only_when_not_the_current_scope_of_the_calling_host_task", z3.Not(legit), "post")
             ip.ctx.oblige(f"{nm}/post:refused.state_unchanged", z3.And(scope_fields_same(pre, post, s), tree_same(pre, post)), "post")
             return
         ip.ctx.oblige(f"{nm}/post:accepted_only_for_the_current_scope_of_the_calling_host_task", legit, "post")
-        own = z3.And(cc(pre, s), z3.Not(visible(pre, s)))  # this scope was cancelled and no cancelled enclosing scope is visible to it
+        own = exit_own(pre, s)
         # ---- C05 exit bookkeeping (whole post-state)
-        par = parent(pre, s)
-        ip.ctx.oblige(
-            f"{nm}/post:scope_left.bookkeeping",
-            z3.And(
-                z3.Not(active(post, s)),
-                host(post, s) == 0,
-                thandle(post, s) == 0,
-                z3.Implies(thandle(pre, s) != 0, hcancelled(post, thandle(pre, s))),
-                z3.Not(members(post, s).has(cur)),
-                post.f("TaskState", "cancel_scope", tstate_of(pre, cur)) == par,
-                z3.Implies(par != 0, z3.And(z3.Not(children(post, par).has(s)), members(post, par).has(cur))),
-                parent(post, s) == par,
-                cc(post, s) == cc(pre, s),
-                shield(post, s) == shield(pre, s),
-                deadline_(post, s) == deadline_(pre, s),
-            ),
-            "post",
-        )
+        ip.ctx.oblige(f"{nm}/post:scope_left.bookkeeping", exit_bookkeeping(pre, post, s, cur), "post")
+        ip.ctx.oblige(f"{nm}/post:scope_left.other_scopes_untouched", others_untouched(pre, post, s), "post")
         ip.ctx.oblige(f"{nm}/post:pending_uncancellations_settled", z3.Or(pending_(post, s) == 0, z3.Not(own)), "post")
         # ---- C04: absorb iff own cancellation, not visible parent cancellation, and an AnyIO cancellation
         swallowed = exc is None and ret is not None and ip.truth(ret) is not False
@@ -635,11 +796,8 @@ class EnterUnit(ScopeUnit):
         if exc is not None:
             ip.ctx.oblige(f"{nm}/post:refused.only_a_second_use", z3.And(z3.BoolVal(exc.pycls is RuntimeError), active(pre, s)), "post")
             return
-        ip.ctx.oblige(
-            f"{nm}/post:entered",
-            z3.And(active(post, s), host(post, s) == cur, members(post, s).has(cur), tstate_of(post, cur) != 0, post.f("TaskState", "cancel_scope", tstate_of(post, cur)) == s),
-            "post",
-        )
+        ip.ctx.oblige(f"{nm}/post:entered", enter_post(pre, post, s, cur), "post")
+        ip.ctx.oblige(f"{nm}/post:entered.other_scopes_untouched", others_untouched(pre, post, s), "post")
         # C06: a deadline that has already passed cancels on entry; otherwise the timer is armed for the deadline
         passed = z3.And(deadline_(pre, s) != INF, now(pre) >= deadline_(pre, s))
         ip.ctx.oblige(f"{nm}/post:past_deadline_cancels_immediately_on_entry", z3.Implies(passed, cc(post, s)), "post")
